@@ -296,6 +296,11 @@ def run(ck):
     w = lib.single(prog, RS + "write")
     szp, datap = w.params[1]["name"], w.params[0]["name"]
     fr = frame_of(w)
+    if not any(k_ in ("hex", "crlf", "ins") for k_, _t, _e, _a in fr):
+        # the frame is not written with stream inserters at all (formatted by hand into a buffer, sputn, ...): this rule reads inserter
+        # sequences and cannot say whether another mechanism frames correctly
+        raise AnalysisBroken("C05-R3: ResponseStream::write does not frame the chunk with ostream inserters (%s): a mechanism this rule does not model"
+                             % sorted({strip_tmpl(e.get("callee") or "").rsplit("::", 1)[-1] for e in w.events("call")})[:6])
     shape = [(k_, t_) for k_, t_, _e, _a in fr if k_ in ("hex", "crlf", "write") or (k_ == "ins" and t_ == szp)]
     want = [("hex", None), ("ins", szp), ("crlf", None), ("write", szp), ("crlf", None)]
     ok = len(shape) == len(want) and all(k_ == wk and (wt is None or t_ == wt) for (k_, t_), (wk, wt) in zip(shape, want))
